@@ -292,15 +292,17 @@ def run_property(pid, tier):
     if pid == "C05":
         # run-time half: instance identities over histories of Get / GetInContext (Container.tla)
         from . import container
-        rt_stats = container.run_c05_runtime(tier, v, rng)
+        rts = container.run_c05_runtime(tier, v, rng)
+        rt_stats = rts[0]
         b = container.run_family("C05", tier, "build", "MC_Container_build.cfg", v, rng)
-        tot_states += rt_stats["tlc_states"] + b["tlc_states"]
-        tot_gen += rt_stats["tlc_generated"] + b["tlc_generated"]
-        r3 = {"traces": rt_stats["compared"] + b["compared"], "nontrivial": rt_stats["nontrivial"],
+        tot_states += sum(x["tlc_states"] for x in rts) + b["tlc_states"]
+        tot_gen += sum(x["tlc_generated"] for x in rts) + b["tlc_generated"]
+        r3 = {"traces": sum(x["compared"] for x in rts) + b["compared"], "nontrivial": sum(x["nontrivial"] for x in rts),
               "samples": [rt_stats["sample"]],
-              "runtime_families": [{k: x[k] for k in x if k != "sample"} for x in (rt_stats, b)]}
-        if rt_stats["compared"] < 0.5 * rt_stats["histories"]:
-            raise core.InfraError("run-time half of C05 mostly unobservable: %s" % rt_stats["unobservable"])
+              "runtime_families": [{k: x[k] for k in x if k != "sample"} for x in rts + [b]]}
+        for x in rts:
+            if x["compared"] < 0.5 * x["histories"] and not v.violations:
+                raise core.InfraError("run-time half of C05 mostly unobservable (%s): %s" % (x["family"], x["unobservable"]))
     if accepted == 0 or rejected == 0 or n_nontrivial < 2:
         raise core.InfraError("degenerate exploration: accepted=%d rejected=%d nontrivial=%d" % (accepted, rejected, n_nontrivial))
     rc = v.finish(tier, t0)
